@@ -157,7 +157,7 @@ pub(crate) fn solve_with_priority_inner<A: Analysis>(
     // Use the initial guesses as the final values.
     if reqs.is_empty() {
         return Ok(SolveOutcomeAnalysis {
-            analysis: A::no_constraints(),
+            analysis: A::no_constraints(initial_guesses.len()),
             outcome: SolveOutcome {
                 unsatisfied: Vec::new(),
                 final_values: initial_guesses
@@ -232,7 +232,7 @@ pub(crate) fn solve_with_priority_inner<A: Analysis>(
     // The unwrap default value is used when
     // there were 0 constraints.
     Ok(res.unwrap_or(SolveOutcomeAnalysis {
-        analysis: A::no_constraints(),
+        analysis: A::no_constraints(initial_guesses.len()),
         outcome: SolveOutcome {
             unsatisfied: Vec::new(),
             final_values: initial_guesses
